@@ -257,7 +257,7 @@ type vRow struct {
 // vRefCopy decodes the tuple area; returns rows, whether the stream ends
 // cleanly (true) or with a bad/truncated row (false), and the tuple
 // boundaries (offsets into data at which a tuple starts or the stream ends).
-func vRefCopy(data []byte, nc int) (rows []vRow, clean bool, bounds []int) {
+func vRefCopy(data []byte, nc int, width []int) (rows []vRow, clean bool, bounds []int) {
 	i := 0
 	for {
 		bounds = append(bounds, i)
@@ -294,6 +294,10 @@ func vRefCopy(data []byte, nc int) (rows []vRow, clean bool, bounds []int) {
 			if uint64(l) > uint64(len(data)-i) {
 				return rows, false, bounds
 			}
+			if width != nil && width[f] > 0 && int(l) != width[f] {
+				// a fixed-width value of any other length is a corrupt field
+				return rows, false, bounds
+			}
 			row.null = append(row.null, false)
 			row.val = append(row.val, data[i:i+int(l)])
 			i += int(l)
@@ -308,7 +312,23 @@ func VerifH14() {
 	nc := 1 + vChoose(vParam("COLS", 2))
 	n := vChoose(R + 1)
 	data := nondetBytes(n)
-	rows, clean, bounds := vRefCopy(data, nc)
+	// TYPES=1: every column's type is the solver's choice among text and the
+	// fixed-width integers (binary int2/int4/int8 must be exactly 2/4/8 bytes)
+	cols := vTextColumns(nc)
+	width := make([]int, nc)
+	if vParam("TYPES", 0) > 0 {
+		for c := range cols {
+			switch vChoose(4) {
+			case 1:
+				cols[c].Oid, width[c] = oid.T_int2, 2
+			case 2:
+				cols[c].Oid, width[c] = oid.T_int4, 4
+			case 3:
+				cols[c].Oid, width[c] = oid.T_int8, 8
+			}
+		}
+	}
+	rows, clean, bounds := vRefCopy(data, nc, width)
 
 	// split points inside the tuple area, non-decreasing: two equal cuts (or a
 	// cut at the very end) make an EMPTY CopyData message, which is a legal split
@@ -348,7 +368,6 @@ func VerifH14() {
 	input = append(input, vMsgBytes('c', nil)...)
 
 	w := vNewWorld(input, 64)
-	cols := vTextColumns(nc)
 	cr := NewCopyReader(w.rd, w.wr, cols)
 	br, err := NewBinaryColumnReader(w.ctx, cr)
 	vAssert("column-reader-ok", err == nil)
@@ -380,9 +399,25 @@ func VerifH14() {
 				vAssert("null-field-is-nil", got[r][f] == nil)
 				vReach("null-field")
 			} else {
-				s, isStr := got[r][f].(string)
-				vAssert("field-decoded", isStr)
-				vAssert("field-value", vEqStr(s, string(rows[r].val[f])))
+				v := rows[r].val[f]
+				switch width[f] {
+				case 0:
+					s, isStr := got[r][f].(string)
+					vAssert("field-decoded", isStr)
+					vAssert("field-value", vEqStr(s, string(v)))
+				case 2:
+					x, is := got[r][f].(int16)
+					vAssert("int2-field-decoded", is && x == int16(uint16(v[0])<<8|uint16(v[1])))
+					vReach("integer-field")
+				case 4:
+					x, is := got[r][f].(int32)
+					vAssert("int4-field-decoded", is && x == int32(vBE32(v, 0)))
+					vReach("integer-field")
+				case 8:
+					x, is := got[r][f].(int64)
+					vAssert("int8-field-decoded", is && x == int64(uint64(vBE32(v, 0))<<32|uint64(vBE32(v, 4))))
+					vReach("integer-field")
+				}
 			}
 		}
 	}
